@@ -367,6 +367,53 @@ def check_install_pairing(ctx):
     for rt in [x for x in walk_scope(ex.node) if isinstance(x, ast.Return) and x.value is not None]:
         if not (isinstance(rt.value, ast.Constant) and not rt.value.value):
             ctx.bad("C11.3", ex, rt, "__exit__ may swallow the exception of the with-block")
+    # one insertion per install, one removal per uninstall: nothing else in the package puts a finder on sys.meta_path (a manager that
+    # re-inserts its hook on __enter__ leaves a second entry behind that `uninstall` -- one `remove` -- does not take out: modules imported
+    # after the with-block are still instrumented)
+    extra = []
+    for f2 in m.all_functions(include_typeguard=False):
+        if f2 is inst:
+            continue
+        for c in m.calls_in(f2):
+            if isinstance(c.func, ast.Attribute) and c.func.attr in ("insert", "append", "extend") and norm(c.func.value) == "sys.meta_path":
+                extra.append((f2, c))
+        for st in walk_scope(f2.node):
+            tg = st.targets if isinstance(st, ast.Assign) else [st.target] if isinstance(st, ast.AugAssign) else []
+            if any(norm(t).startswith("sys.meta_path") for t in tg):
+                extra.append((f2, st))
+    own = [c for c in m.calls_in(inst) if isinstance(c.func, ast.Attribute) and c.func.attr in ("insert", "append", "extend") and norm(c.func.value) == "sys.meta_path"]
+    for f2, c in list(extra):
+        if f2.name.startswith("__") and f2.name.endswith("__"):
+            continue  # runs on a protocol event (entering a with-block, construction), not once per install
+        # a helper that install_import_hook calls exactly once, in place of its own insertion, is install_import_hook's insertion
+        sites = []
+        for g2 in m.all_functions(include_typeguard=False):
+            for c2 in m.calls_in(g2):
+                t2 = m.resolve_call(g2, c2)
+                if (t2.kind == "func" and t2.target.qualname == f2.qualname) or (t2.kind not in ("func", "class") and isinstance(c2.func, ast.Attribute) and c2.func.attr == f2.name):
+                    sites.append((g2, c2))
+        # ... and so is another installer: one insertion of `h`, then `return <manager class>(h)` -- the same pairing as install_import_hook
+        ins_here = [c_ for f_, c_ in extra if f_ is f2]
+        rets = [rt for rt in walk_scope(f2.node) if isinstance(rt, ast.Return)]
+        inserted = ins_here[0].args[-1] if len(ins_here) == 1 and ins_here[0].args else None
+        if isinstance(inserted, ast.Name) and rets and not any(isinstance(l_, (ast.For, ast.While)) for l_ in ast.walk(f2.node)) and all(
+                isinstance(rt.value, ast.Call) and len(rt.value.args) == 1 and norm(rt.value.args[0]) == inserted.id
+                and (m.resolve_call(f2, rt.value).kind == "class" or (isinstance(rt.value.func, ast.Name) and f2.params and rt.value.func.id == f2.params[0] and f2.cls is not None))
+                for rt in rets):
+            extra.remove((f2, c))
+            ctx.ok("C11.3", f2.qualname, f"`{short(c, 50)}`: an installer of its own (one insertion, returns the manager that removes it)")
+            continue
+        in_loop = any(isinstance(l_, (ast.For, ast.While)) and any(x is sites[0][1] for x in ast.walk(l_)) for l_ in ast.walk(inst.node)) if len(sites) == 1 else False
+        if len(sites) == 1 and sites[0][0] is inst and not own and not in_loop and len(extra) == 1:
+            extra.remove((f2, c))
+            ctx.ok("C11.3", f2.qualname, f"`{short(c, 50)}`: the one insertion of install_import_hook, made by the helper it calls once")
+        else:
+            raise AnalysisError(f"C11.3: `{short(c, 50)}` in {f2.qualname} puts a finder on sys.meta_path; how often that runs per install ({len(sites)} call sites) is not decided")
+    for f2, c in extra:
+        ctx.bad("C11.3", f2, c, f"`{short(c, 60)}` puts a finder on sys.meta_path outside install_import_hook: an entry that the single `remove` of uninstall() does not balance "
+                "stays behind, so modules imported after the hook was \"uninstalled\" are still instrumented", construct=f"sys.meta_path insertion in {f2.name}")
+    if not extra:
+        ctx.ok("C11.3", inst.qualname, "install_import_hook is the only place that puts a finder on sys.meta_path")
 
 
 # ------------------------------------------------------------------------ C11.4
@@ -499,6 +546,21 @@ def check_front_ends(ctx):
         else:
             ctx.bad("C11.5", pc, st_ if end != "last" else c, "the pytest option is not split into (all but last -> packages, last -> typechecker) and passed to install_import_hook in that order",
                     construct="pytest_configure wiring")
+    # the plugin may take its hook down again only if it knows the hook is *its own session's*: a manager kept in a module-level variable is
+    # shared by every pytest session of the process (pytester / nested `pytest.main`), so an inner session's teardown uninstalls the outer
+    # session's hook and packages named there load uninstrumented afterwards
+    pmod = m.module("_pytest_plugin")
+    for f2 in m.all_functions(include_typeguard=False):
+        if f2.module is not pmod:
+            continue
+        for c in m.calls_in(f2):
+            if isinstance(c.func, ast.Attribute) and c.func.attr in ("uninstall", "__exit__"):
+                root = c.func.value
+                while isinstance(root, (ast.Attribute, ast.Subscript)):
+                    root = root.value
+                if isinstance(root, ast.Name) and (m.resolve_name(f2, root.id).kind in ("modvar", "global") or any(isinstance(g_, ast.Global) and root.id in g_.names for g_ in ast.walk(f2.node))):
+                    ctx.bad("C11.5", f2, c, f"`{short(c, 50)}` uninstalls a hook kept in the module-level `{root.id}`: that variable belongs to the process, not to the pytest session -- "
+                            "a nested in-process session tears down the hook of the session that encloses it", construct=f"pytest plugin uninstalls process-wide hook {root.id}")
     magic = None
     for q, f in m.functions.items():
         if q.startswith("_ipython_extension") and f.name == "typechecker":
